@@ -103,6 +103,8 @@ type Contract struct {
 	NoFloat  bool
 	External bool
 	Fresh    bool // result freshly allocated
+	HasCallback bool
+	Callback [2]int // ext contract: argument index of the function value and of the slice whose elements it is called with (-1: none)
 	Linear   bool // every AST node obtained from a sub-parser or allocated here ends up in the result (no parsed node is dropped)
 	Sites    []*SiteAssert
 }
@@ -110,6 +112,7 @@ type Contract struct {
 // SiteAssert: an assertion checked in the state just before the N-th call (source order; 0 = every call)
 // to Callee inside the function.
 type SiteAssert struct {
+	Invariant bool // invariant of the callback loop of the call (callee has a `callback` clause)
 	Callee string
 	N      int
 	Assume bool // definitional assumption about ghost state (listed in the evidence), not an obligation
@@ -151,7 +154,7 @@ func NewSpec() *Spec {
 var clauseKeywords = map[string]bool{"func": true, "tags": true, "requires": true, "ensures": true, "assigns": true,
 	"loop": true, "invariant": true, "decreases": true, "bound": true, "ghost": true, "axiom": true, "smt": true,
 	"trusted": true, "pure": true, "maypanic": true, "package": true, "typeinv": true, "lemma": true, "note": true,
-	"nofloat": true, "fresh": true, "linear": true, "modifies": true, "end": true, "defines": true, "at": true}
+	"nofloat": true, "fresh": true, "linear": true, "callback": true, "modifies": true, "end": true, "defines": true, "at": true}
 
 // ReadSpecFile reads one contract file.  defaultPkg is the import path used for unqualified keys.
 func (sp *Spec) ReadSpecFile(path, defaultPkg string) error {
@@ -244,6 +247,20 @@ func (sp *Spec) ReadSpecFile(path, defaultPkg string) error {
 			cur.Fresh = true
 		case "linear":
 			cur.Linear = true
+		case "callback":
+			// callback <i> pairs <j>: the function passed as argument i is called (any number of times) with two elements of
+			// the slice passed as argument j, and with every element at least once when the slice has two or more elements
+			f := strings.Fields(rc.rest)
+			if cur == nil || len(f) != 3 || f[1] != "pairs" {
+				return fmt.Errorf("%s: expected `callback <arg> pairs <arg>`", rc.pos)
+			}
+			a, e1 := strconv.Atoi(strings.TrimPrefix(f[0], "arg"))
+			b, e2 := strconv.Atoi(strings.TrimPrefix(f[2], "arg"))
+			if e1 != nil || e2 != nil {
+				return fmt.Errorf("%s: bad callback clause", rc.pos)
+			}
+			cur.Callback = [2]int{a, b}
+			cur.HasCallback = true
 		case "note":
 			if cur != nil {
 				cur.Notes = append(cur.Notes, rc.rest)
@@ -277,10 +294,11 @@ func (sp *Spec) ReadSpecFile(path, defaultPkg string) error {
 		case "at":
 			// at callee#n assert [tags] label: expr
 			f := strings.Fields(rc.rest)
-			if cur == nil || len(f) < 3 || !(strings.HasPrefix(f[1], "assert") || strings.HasPrefix(f[1], "assume")) {
+			if cur == nil || len(f) < 3 || !(strings.HasPrefix(f[1], "assert") || strings.HasPrefix(f[1], "assume") || strings.HasPrefix(f[1], "invariant")) {
 				return fmt.Errorf("%s: expected `at callee#n assert expr`", rc.pos)
 			}
 			isAssume := strings.HasPrefix(f[1], "assume")
+			isInv := strings.HasPrefix(f[1], "invariant")
 			callee, n := f[0], 0
 			if i := strings.Index(callee, "#"); i > 0 {
 				if callee[i+1:] != "*" {
@@ -292,13 +310,16 @@ func (sp *Spec) ReadSpecFile(path, defaultPkg string) error {
 			if isAssume {
 				kwd = "assume"
 			}
+			if isInv {
+				kwd = "invariant"
+			}
 			rest := strings.TrimSpace(strings.SplitN(rc.rest, kwd, 2)[1])
 			tags, label, body := splitTagsLabel(rest)
 			e, err := ParseExpr(body)
 			if err != nil {
 				return fmt.Errorf("%s: %v in %q", rc.pos, err, body)
 			}
-			cur.Sites = append(cur.Sites, &SiteAssert{Callee: callee, N: n, Assume: isAssume, C: &Clause{Kind: kwd, Label: label, Tags: tags, E: e, Text: body, Pos: rc.pos}})
+			cur.Sites = append(cur.Sites, &SiteAssert{Callee: callee, N: n, Assume: isAssume, Invariant: isInv, C: &Clause{Kind: kwd, Label: label, Tags: tags, E: e, Text: body, Pos: rc.pos}})
 		case "loop":
 			n, err := strconv.Atoi(strings.Fields(rc.rest)[0])
 			if err != nil || cur == nil {
